@@ -8,4 +8,6 @@ def check(ctx: Ctx) -> None:
     CT.r_arg_mapping(ctx, "R17.3")
     CT.r_return_or_exception(ctx, "R17.4")
     CT.r_tokens(ctx, "R17.5")
+    CT.r_fresh_conversion(ctx, "R17.6")
+    CT.r_async_declared(ctx, "R17.7")
     CT.r_annotation_kinds(ctx, "R16.3")
